@@ -92,6 +92,60 @@ func jsonAddrAs(role, s string) string {
 	})
 }
 
+func setAddrAs(role, s, prev string) string {
+	return guard(func() string {
+		// what the variable holds before: nothing, the same IP with another port, something else
+		ip := netip.AddrFrom4([4]byte{10, 9, 8, 7})
+		if prev == "same-ip" {
+			if before := parseAddrAs(role, s); strings.HasPrefix(before, "ok ") {
+				if ap, err := netip.ParseAddrPort(strings.TrimPrefix(before, "ok ")); err == nil {
+					ip = ap.Addr()
+				}
+			}
+		}
+		var ap netip.AddrPort
+		var err error
+		switch role {
+		case "bind":
+			a := types.BindAddrFrom(ip, 12345)
+			if prev == "zero" {
+				a = types.BindAddr{}
+			}
+			err = a.Set(s)
+			ap = a.AddrPort
+		case "broadcast":
+			a := types.BroadcastAddrFrom(ip, 12345)
+			if prev == "zero" {
+				a = types.BroadcastAddr{}
+			}
+			err = a.Set(s)
+			ap = a.AddrPort
+		case "listen":
+			a := types.ListenAddrFrom(ip, 12345)
+			if prev == "zero" {
+				a = types.ListenAddr{}
+			}
+			err = a.Set(s)
+			ap = a.AddrPort
+		case "controller":
+			a := types.ControllerAddrFrom(ip, 12345)
+			if prev == "zero" {
+				a = types.ControllerAddr{}
+			}
+			err = a.Set(s)
+			ap = a.AddrPort
+		}
+		if err != nil {
+			return "err"
+		}
+		if !ap.Addr().Is4() {
+			return "ok-non-ipv4 " + ap.String()
+		}
+		b := ap.Addr().As4()
+		return fmt.Sprintf("ok %d.%d.%d.%d:%d", b[0], b[1], b[2], b[3], ap.Port())
+	})
+}
+
 func formatAddrAs(role string, a netip.Addr, port uint16) string {
 	return guard(func() string {
 		switch role {
@@ -116,9 +170,16 @@ func streamAddr(c *ctx) {
 		w.Emit("addr-parse "+role+" "+cases.Hex([]byte(s)), out, tag, "addr/"+role, "addr-res/"+strings.SplitN(out, " ", 2)[0])
 		// the JSON form of an address is its text in quotes: decoding it is the same parser under the same port rule
 		nParse++
-		if nParse%3 == 0 && jsonSafe(s) {
+		if (nParse%3 == 0 || s == "") && jsonSafe(s) {
 			out := jsonAddrAs(role, s)
 			w.Emit("addr-json "+role+" "+cases.Hex([]byte(s)), out, tag, "addr-json/"+role, "addr-res/"+strings.SplitN(out, " ", 2)[0])
+		}
+		// ... and Set (the flag.Value entry point) is the same parser again, followed by the role's IsValid; what the
+		// variable held before must not matter
+		if nParse%3 == 1 {
+			prev := []string{"zero", "same-ip", "other"}[(nParse/3)%3]
+			out := setAddrAs(role, s, prev)
+			w.Emit("addr-set "+role+" "+prev+" "+cases.Hex([]byte(s)), out, tag, "addr-set/"+role, "addr-res/"+strings.SplitN(out, " ", 2)[0])
 		}
 	}
 	// ordinary, wildcard, broadcast, private, loopback, link-local, multicast, CGNAT, class E: the port rules are the
